@@ -354,6 +354,51 @@ func c13InFlight(rep *childReport, seed int64, idx int) {
 	wg.Wait()
 }
 
+// c13FirstContact: many requests for a host the manager does not know yet arrive at the same instant
+// (the assets of one page on a new host). Whatever happens inside the manager, the host may be sent at
+// most capacity + T x rate requests in any window: the number of Wait() calls that have returned when the
+// monitor looks (T = time since the callers were let go, read together with the count) is bounded.
+// Real clock, upper bound on a count that a slow machine can only make smaller.
+func c13FirstContact(rep *childReport, seed int64, idx int) {
+	const callers, capacity, rate = 32, 1.0, 0.1
+	for round := 0; round < 40; round++ {
+		ctx, cancel := context.WithCancel(context.Background())
+		bm := ratelimiter.NewBucketManager(ctx, 64, capacity, rate, time.Hour)
+		host := fmt.Sprintf("first%d-%d.example", idx, round)
+		var ready, returned atomic.Int64
+		gate := make(chan struct{})
+		for i := 0; i < callers; i++ {
+			go func() {
+				ready.Add(1)
+				<-gate
+				bm.Wait(host) // the callers that find no token keep polling until the process ends
+				returned.Add(1)
+			}()
+		}
+		for ready.Load() < callers {
+			time.Sleep(time.Millisecond)
+		}
+		t0 := time.Now()
+		close(gate)
+		time.Sleep(250 * time.Millisecond)
+		n := returned.Load()
+		el := time.Since(t0).Seconds()
+		bound := int64(capacity) + int64(math.Ceil(rate*el))
+		rep.event("first_contact_rounds", 1)
+		if n > 0 {
+			rep.distinct("first-contact/released")
+		}
+		if n > bound {
+			rep.violation("first-contact-burst-above-window-bound", fmt.Sprintf("host %s (no bucket yet): %d concurrent requests, %d released within %.2f s although capacity %.0f + %.2f s x %.1f/s allows at most %d", host, callers, n, el, capacity, el, rate, bound), map[string]any{"released": n, "elapsed_s": el, "bound": bound})
+			cancel()
+			bm.Close()
+			return
+		}
+		cancel()
+		bm.Close()
+	}
+}
+
 func c13Child(scPath string) int {
 	var sc c13Scenario
 	if err := readJSON(scPath, &sc); err != nil {
@@ -371,6 +416,7 @@ func c13Child(scPath string) int {
 	}
 	if sc.InFlight {
 		c13InFlight(rep, sc.Seed, sc.First)
+		c13FirstContact(rep, sc.Seed, sc.First)
 	}
 	rep.Evaluations = rep.Events["sequences"]
 	rep.write(os.Getenv("VZ_CHILD_DIR"))
@@ -403,7 +449,7 @@ func c13(r *vc.Run) int {
 	pipe := c13Pipeline(r)
 	cov := map[string]any{
 		"pipeline_level":      pipe,
-		"evaluations":         m.Evaluations + m.Events["active_host_runs"] + m.Events["in_flight_runs"] + pipe["runs"].(int),
+		"evaluations":         m.Evaluations + m.Events["active_host_runs"] + m.Events["in_flight_runs"] + m.Events["first_contact_rounds"] + pipe["runs"].(int),
 		"distinct_nontrivial": len(m.Distinct),
 		"rule":                "(plus the active-host runs and the pipeline-level runs, counted as one evaluation each) one evaluation = one seeded sequence of 30-80 acquire/failure/success events (failure streaks up to 80) with 1-8 concurrent waiters on the real token bucket under a virtual clock; distinct = distinct (capacity, rate, waiters, streak mode, releases, hook events) with at least one release",
 		"samples":             m.Samples,
